@@ -91,7 +91,7 @@ Section PlanesFacts.
   Qed.
 
   Lemma defocus_keeps_focus (img : image P) mult i ch p :
-    (forall f, blur 0 f = f) ->                              (* the nsigma = 0 kernel is the delta kernel *)
+    (forall f q, In q pix -> blur 0 f q = f q) ->            (* the nsigma = 0 kernel is the delta kernel *)
     (forall q, In q pix -> exactly_one P n m q) ->
     (forall q, In q pix -> 0 <= img ch q)%R ->                (* images are non-negative *)
     In p pix -> (i < n)%nat -> m i p = true ->
@@ -101,7 +101,7 @@ Section PlanesFacts.
     destruct (Hex p Hp) as (k & Hk & Ak & U).
     assert (k = i) by (symmetry; apply U; assumption). subst k.
     rewrite (sum_upto_single n _ i Hi).
-    - unfold level. rewrite Nat.eqb_refl, Hb, A. simpl. rewrite Rabs_R1.
+    - unfold level. rewrite Nat.eqb_refl, (Hb _ p Hp), A. simpl. rewrite Rabs_R1.
       unfold total. rewrite (targets_sum img ch p (Hex p Hp)).
       destruct (Rltb 0 (plane_sum P m pix img i ch)) eqn:G; [lra|].
       apply Rltb_false in G. symmetry.
@@ -168,6 +168,9 @@ Proof.
   - apply eq_IZR in E. subst. symmetry. apply Z.eqb_refl.
   - symmetry. apply Z.eqb_neq. intros ->. apply E. reflexivity.
 Qed.
+
+Lemma Rabs_ite01 (c : bool) : Rabs (if c then 1 else 0) = (if c then 1 else 0)%R.
+Proof. destruct c; [apply Rabs_R1|apply Rabs_R0]. Qed.
 
 Lemma Rround_quantF n d : Rround (d * IZR (n - 1)) = IZR (quantF n d).
 Proof. reflexivity. Qed.
@@ -588,7 +591,7 @@ Proof.
 Qed.
 
 Lemma single_plane_defocus (P : Type) (pix : list P) blur nsig (rho : P -> Z) (img : image P) mult ch p :
-  (forall f, blur 0%nat f = f) -> (forall q, In q pix -> rho q = 0%Z) ->
+  (forall f q, In q pix -> blur 0%nat f q = f q) -> (forall q, In q pix -> rho q = 0%Z) ->
   (forall q, In q pix -> 0 <= img ch q)%R -> In p pix ->
   defocus P 1 (qmask rho) pix blur nsig img mult 0 ch p = (mult * img ch p)%R.
 Proof.
